@@ -52,7 +52,7 @@ class FnSpec:
                decreases=None, group=None, invariants=None, bindings=None, free=(),
                assigns=(), native=None, notes='', enum_bound=2, props=(), self_sort=None,
                raises_any=(), modifies=(), ghost=None, while_decreases=None, nested=None,
-               trusted=False, kind='function', hints=()):
+               trusted=False, kind='function', hints=(), raises_when=None):
     self.target = target                  # 'flax/core/scope.py::union_filters'
     self.params = list(params)            # [(name, Sort)] in signature order
     self.returns = returns                # Sort / None (returns None)
@@ -60,6 +60,7 @@ class FnSpec:
     self.ensures = list(ensures)
     self.raises = dict(raises or {})      # ExcName -> condition string (iff, over entry state)
     self.raises_any = tuple(raises_any)   # exceptions that may be raised without a stated condition
+    self.raises_when = dict(raises_when or {})  # ExcName -> sufficient condition: whenever it holds (entry state) the call raises
     self.decreases = decreases
     self.group = group
     self.invariants = dict(invariants or {})      # loop ordinal -> [clauses]
